@@ -121,7 +121,11 @@ def run(run, args):
         violation(run, {"failing_input": by_id[res[1][0]], "what": "the child aborted / exited non-zero, an error path changed the handle set or left a "
                         "non-null out-pointer, parse_formula disagreed with the reference grammar, or a handle survived the closing frees", "all_failing_ids": res[1][:40]})
     if res[0]:
-        violation(run, {"broken": "correspondence model/implementation", "tie_breaking_case": by_id[res[0][0]], "all": res[0][:40]}, nofail=True)
+        # the property says each call "has the same effect as the corresponding Rust operation"; the handle-table model IS
+        # those operations (Comp/Formula/ESpec models, each tied to the Rust API by its own check), so a sequence on which
+        # the binding's observable results differ from it is a failing input of C17, not just a broken correspondence
+        violation(run, {"failing_input": by_id[res[0][0]], "what": "return codes, out-pointer nullness, or the mass / counts read back through the "
+                        "binding differ from the corresponding Rust operations applied to the same handles", "all_failing_ids": res[0][:40]})
     if broken:
         violation(run, {"broken": broken[0][0], "detail": broken[0][1], "all_broken": [b[0] for b in broken]}, nofail=True)
     run.finish(0)
